@@ -361,7 +361,7 @@ def run(ctx):
     ctx.prove(PROOF_MODULES, OBLIGATIONS)
     drv = ctx.build_driver("c31_driver")
     model = ctx.build_model("C31", "C31/Extract.v", "c31_main.ml", "semodel", extra_ml=["expr_io.ml"])
-    na, nb = (900, 500) if ctx.tier == "quick" else (12000, 6000)
+    na, nb = (700, 400) if ctx.tier == "quick" else (10000, 5000)
     cases = list(CORPUS) + [gen_a(ctx.rng, ctx.tier) for _ in range(na)] + [gen_b(ctx.rng, ctx.tier) for _ in range(nb)]
     explore(ctx, drv, model, cases)
     if ctx.broken and not [v for v in ctx.violations if v["key"] not in vlib.load_known("C31")]:
